@@ -1,4 +1,5 @@
 import DoitModel.Proofs.CleanSpec
+import DoitModel.Proofs.CleanEffects
 /-! # C14 — clean acts on exactly the selected tasks, once, dependents first
 
 Property theorems only (model: `Model/Clean.lean`; helpers: `Proofs/CleanFlat.lean`, `CleanOrder.lean`,
@@ -104,5 +105,78 @@ theorem dependents_first (tbl : Table) (r : Req) (base : List Name) (p : Plan)
     ⟨s1, fun b a h => (s2 b a h).2, fun b a h => (s2 b a h).1, acyclicB_sound tbl hac⟩
   have hak := hperm.mem_iff.1 ha
   exact (flat_order hG b hb' a (s4 a hak b hab).2).2
+
+/-- **targets_order** — `clean_targets` walks `sorted(targets, reverse=True)`: the walk is a rearrangement of
+    the targets, and nothing that lies below a directory `d` (has `d/` as a proper prefix) comes after `d`;
+    so a file inside a target directory has been dealt with when the directory's turn comes -/
+theorem targets_order (ts : List Path) :
+    (∀ y, y ∈ sortDesc ts ↔ y ∈ ts) ∧
+    ∀ (l1 l2 : List Path) (d p : Path), sortDesc ts = l1 ++ d :: l2 → below d p = true → p ∉ l2 := by
+  refine ⟨mem_sortDesc ts, ?_⟩
+  intro l1 l2 d p hs hb hp
+  have hdesc := desc_sortDesc ts
+  rw [hs] at hdesc
+  have h2 := (List.pairwise_append.1 hdesc).2.1
+  have h3 := (List.pairwise_cons.1 h2).1 p hp
+  have h4 := not_pathLe_of_prefix '/' d p hb
+  rw [h4] at h3
+  exact absurd h3 (by simp)
+
+/-- **dryrun_frame** — with `--dry-run` the command changes neither files, nor directories, nor the DB
+    (whatever else is on the command line, `--forget` included) -/
+theorem dryrun_frame (tbl : Table) (r : Req) (w : World) (res : Result)
+    (h : run tbl r w = .ok res) (hd : r.dryrun = true) : res.world = w := by
+  unfold run at h
+  cases hp : plan tbl r with
+  | error e => simp [hp] at h
+  | ok p =>
+    simp only [hp] at h
+    cases h
+    simp only [hd]
+    exact cleanTasks_dry tbl r.forget p.order w
+
+/-- **forget_exact** — saved state after the command: a task keeps its saved state unless `--forget` was given
+    without `--dry-run` and the task is one of the cleaned tasks; nothing is ever added -/
+theorem forget_exact (tbl : Table) (r : Req) (w : World) (res : Result) (h : run tbl r w = .ok res) :
+    ∀ x, x ∈ res.world.db ↔ x ∈ w.db ∧ ¬ (r.forget = true ∧ r.dryrun = false ∧ x ∈ res.order) := by
+  unfold run at h
+  cases hp : plan tbl r with
+  | error e => simp [hp] at h
+  | ok p =>
+    simp only [hp] at h
+    cases h
+    intro x
+    exact cleanTasks_db tbl r.dryrun r.forget p.order (w, []) x
+
+/-! ## non-vacuity: concrete inputs that meet the hypotheses and reach the interesting states -/
+
+/-- a diamond with a shared dependency, defined in an order unrelated to the dependencies:
+    `t0 → t2, t3`; `t2 → t1`(setup); `t3 → t1`; `clean t0 --clean-dep`: accepted, fuel fine, acyclic,
+    four tasks cleaned, the shared dependency `t1` last -/
+def diamond : Table :=
+  [⟨['t', '0'], [2, 3], [], none, [], .action false⟩, ⟨['t', '1'], [], [], none, [], .action true⟩,
+   ⟨['t', '2'], [], [1], none, [], .action false⟩, ⟨['t', '3'], [1], [], none, [], .targets⟩]
+def diamondReq : Req := ⟨[['t', '0']], none, true, false, false, true⟩
+
+example : (cleanList diamond diamondReq).toOption = some [0] ∧ withDeps diamondReq = true ∧ acyclicB diamond = true ∧
+    BuildFuelOk diamond diamondReq [0] ∧
+    (match plan diamond diamondReq with | .ok p => some p.order | .error _ => none) = some [0, 3, 2, 1] := by
+  decide
+
+/-- a group cleaned without `--clean-dep`: its sub-tasks are cleaned, a plain task_dep is not -/
+example :
+    (match plan [⟨['g'], [2, 1], [], none, [], .action false⟩, ⟨['g', ':', 'a'], [], [], some 0, [], .action false⟩,
+                 ⟨['x'], [], [], none, [], .action false⟩]
+        ⟨[['g']], none, false, false, false, false⟩ with | .ok p => some p.order | .error _ => none) = some [0, 1] := by
+  decide
+
+/-- `--forget` on the diamond world: state of all four cleaned tasks goes, task 4's (not in the table's clean
+    set) stays; the file inside the target directory goes before the directory -/
+example :
+    (match run [⟨['t'], [], [], none, [['d'], ['d', '/', 'f']], .targets⟩] ⟨[], none, false, false, false, true⟩
+        ⟨[['d', '/', 'f']], [['d']], [0, 4]⟩ with
+      | .ok res => some (res.world.files, res.world.dirs, res.world.db, res.events)
+      | .error _ => none) =
+    some ([], [], [4], [Ev.rmFile 0 ['d', '/', 'f'], Ev.rmDir 0 ['d']]) := by decide
 
 end DoitModel.C14
